@@ -1231,7 +1231,9 @@ func (s *session) stepReject(o op) {
 		u.OnBeforeUpgrade = func() (ws.HandshakeHeader, error) { return nil, shared }
 	}
 	rec := tx.NewRec()
-	hs, err := u.Upgrade(tx.RW{Reader: s.src(s.request(), o.spec.Chunks), Writer: s.dst(rec)})
+	// an application header, so that OnHeader has something to be called for
+	req := append(bytes.TrimSuffix(s.request(), []byte("\r\n")), "X-Session: "+word(s.id, 1000+o.idx*16, 6)+"\r\n\r\n"...)
+	hs, err := u.Upgrade(tx.RW{Reader: s.src(req, o.spec.Chunks), Writer: s.dst(rec)})
 	resp := string(rec.Bytes())
 	head, body := resp, ""
 	if i := strings.Index(resp, "\r\n\r\n"); i >= 0 {
